@@ -185,6 +185,7 @@ func (pd *perRawBitData) appendBitString(bytes []byte, bitsLength uint64, extens
 	if sizeRange == 1 {
 		if bitsLength != uint64(ub) {
 			err = fmt.Errorf("bitString Length(%d) is not match fix-sized : %d", bitsLength, ub)
+			return
 		}
 		perTrace(2, fmt.Sprintf("Encoding BIT STRING size %d", ub))
 		if sizes > 2 {
